@@ -74,10 +74,13 @@ zix_bump_realloc(ZixAllocator* const allocator,
     return NULL;
   }
 
-  const size_t new_top = state->last + size;
-  if (new_top > state->capacity) {
+  const size_t real_size = round_up_multiple(size, min_alignment);
+  if (real_size < size || state->last > state->capacity ||
+      real_size > state->capacity - state->last) {
     return NULL;
   }
+
+  const size_t new_top = state->last + real_size;
 
   state->top = new_top;
   return ptr;
